@@ -444,6 +444,11 @@ fn programs(family: &str) -> Vec<(String, Outcome)> {
             p("x :: 1\n", Outcome::Reject);
             p("start :: fn do\n    x := (1\nend\n", Outcome::Reject);
             p("start :: fn do\n    x := ()\n    y := (1)\n    z := (1,)\nend\n", Outcome::Accept);
+            // cyclic types: unification and the rendering of a type in an error message must terminate
+            p("f :: fn a, b, y do\n    a == (a, a)\n    b == (y, b)\n    a == b\nend\nstart :: fn do\nend\n", Outcome::Accept);
+            p("f :: fn a, b do\n    a == (a, a)\n    b == (b, b)\n    a == b\nend\nstart :: fn do\nend\n", Outcome::Accept);
+            p("start :: fn do\n    a := []\n    a = [a]\n    a + 1\nend\n", Outcome::Reject);
+            p("start :: fn do\n    a := []\n    a = [a]\nend\n", Outcome::Accept);
         }
         _ => {}
     }
